@@ -97,7 +97,8 @@ RULE = ("200 (quick) / 4000 (thorough) random collections of 0-7 objects over ti
         "non-integer numbers; + 150/2500 collections (a third with NaN floats) x 40/60 queries against one of three "
         "object stores (all symbols / only id,s,i / no id symbol): filters nested with and/or/not to depth 3, filters on unknown symbols, set "
         "functions on non-set symbols, 0-9 sort fields with duplicates, id anywhere, unknown / set / AnyType / dotted sort fields; + 40/600 "
-        "collections x 25/30 queries with NaN / +-Inf / -0 under the float64 sort key (all iteration orders). Each case runs boltz QueryIds, "
+        "collections x 25/30 queries with NaN / +-Inf / -0 under the float64 sort key (all iteration orders); + 40/600 collections x 30 queries over keyword-like alias symbol names (as in C02) with every spelling of the sort "
+        "direction. Each case runs boltz QueryIds, "
         "objectz QueryEntities, and QueryEntitiesC twice on one query object. non-trivial = at least two objects match and a null test, sort field, "
         "skip or limit is present; distinct = (collection, filter, sort, skip, limit, object store)")
 
